@@ -19,6 +19,7 @@ import (
 	"github.com/liftbridge-io/liftbridge/server/commitlog"
 	encryption "github.com/liftbridge-io/liftbridge/server/encryption"
 	proto "github.com/liftbridge-io/liftbridge/server/protocol"
+	"github.com/liftbridge-io/liftbridge/server/verifhook"
 )
 
 // recvChannelSize specifies the size of the channel that feeds the leader
@@ -557,6 +558,9 @@ func (p *partition) newSubscribeLoop(ctx context.Context, groupID, consumerID st
 }
 
 func (p *partition) removeGroupSubscriber(groupID, consumerID string) {
+	if verifhook.Enabled {
+		verifhook.Point("sub.beforeRemoveGroup", p.Stream, p.Id, groupID, consumerID) // nolint: errcheck
+	}
 	p.consumersMu.Lock()
 	defer p.consumersMu.Unlock()
 	sub, ok := p.consumers[groupID]
@@ -814,6 +818,9 @@ func (p *partition) becomeLeader(epoch uint64) error {
 			return errors.Wrap(err, "failed to update leader epoch on log")
 		}
 	}
+	if verifhook.Enabled {
+		verifhook.Point("partition.becomeLeader", p.srv.config.Clustering.ServerID, p.Stream, p.Id, epoch, p.log.NewestOffset(), p.recovered) // nolint: errcheck
+	}
 
 	// Update this replica's latest offset to ensure it's up to date.
 	rep, ok := p.isr[p.srv.config.Clustering.ServerID]
@@ -973,6 +980,10 @@ func (p *partition) handleLeaderOffsetRequest(msg *nats.Msg) {
 	resp, err := proto.MarshalLeaderEpochOffsetResponse(&proto.LeaderEpochOffsetResponse{
 		EndOffset: p.log.LastOffsetForLeaderEpoch(req.LeaderEpoch),
 	})
+	if verifhook.Enabled {
+		verifhook.Point("partition.offsetResp", p.srv.config.Clustering.ServerID, p.Stream, p.Id, // nolint: errcheck
+			req.LeaderEpoch, p.log.LastOffsetForLeaderEpoch(req.LeaderEpoch))
+	}
 	if err != nil {
 		panic(err)
 	}
@@ -1059,6 +1070,9 @@ func (p *partition) handleReplicationResponse(msg *nats.Msg) int {
 	offsets, err := p.log.AppendMessageSet(data)
 	if err != nil {
 		panic(fmt.Errorf("Failed to replicate data to log %s: %v", p, err))
+	}
+	if verifhook.Enabled {
+		verifhook.Point("partition.followerAppend", p.srv.config.Clustering.ServerID, p.Stream, p.Id, offset, len(offsets), leaderEpoch) // nolint: errcheck
 	}
 	return len(offsets)
 }
@@ -1157,6 +1171,11 @@ func (p *partition) messageProcessingLoop(recvChan <-chan *nats.Msg, stop <-chan
 		if p.encryptionHandler != nil {
 			// Encrypt value
 			encryptedValue, err := p.encryptionHandler.Seal(m.Value)
+			if verifhook.Enabled {
+				if herr := verifhook.Point("partition.seal", p.Stream, p.Id); herr != nil {
+					err = herr
+				}
+			}
 
 			if err != nil {
 				ack := &client.Ack{
@@ -1204,6 +1223,11 @@ func (p *partition) messageProcessingLoop(recvChan <-chan *nats.Msg, stop <-chan
 
 				if p.encryptionHandler != nil {
 					encryptedValue, err := p.encryptionHandler.Seal(m.Value)
+					if verifhook.Enabled {
+						if herr := verifhook.Point("partition.seal", p.Stream, p.Id); herr != nil {
+							err = herr
+						}
+					}
 					if err != nil {
 						ack := &client.Ack{
 							Stream:             p.Stream,
@@ -1240,6 +1264,11 @@ func (p *partition) messageProcessingLoop(recvChan <-chan *nats.Msg, stop <-chan
 
 					if p.encryptionHandler != nil {
 						encryptedValue, err := p.encryptionHandler.Seal(m.Value)
+						if verifhook.Enabled {
+							if herr := verifhook.Point("partition.seal", p.Stream, p.Id); herr != nil {
+								err = herr
+							}
+						}
 						if err != nil {
 							ack := &client.Ack{
 								Stream:             p.Stream,
@@ -1463,6 +1492,9 @@ func (p *partition) sendAck(ack *client.Ack) {
 		return
 	}
 	ack.CommitTimestamp = timestamp()
+	if verifhook.Enabled {
+		verifhook.Point("ack.send", p.srv.config.Clustering.ServerID, p.Stream, p.Id, ack) // nolint: errcheck
+	}
 	data, err := proto.MarshalAck(ack)
 	if err != nil {
 		panic(err)
@@ -1513,6 +1545,9 @@ func (p *partition) replicationRequestLoop(leader string, epoch uint64, stop <-c
 		default:
 		}
 
+		if verifhook.Enabled {
+			verifhook.Point("follower.beforeFetch", p.srv.config.Clustering.ServerID, p.Stream, p.Id, leader, epoch, stop) // nolint: errcheck
+		}
 		replicated, err := p.sendReplicationRequest(epoch)
 		if err != nil {
 			p.srv.logger.Errorf(
@@ -1639,6 +1674,9 @@ func (p *partition) truncateUncommitted() error {
 	}
 
 	p.srv.logger.Debugf("Truncating log for partition %s to %d", p, lastOffset)
+	if verifhook.Enabled {
+		verifhook.Point("partition.truncate", p.srv.config.Clustering.ServerID, p.Stream, p.Id, "epoch", leaderEpoch, lastOffset+1) // nolint: errcheck
+	}
 	// Add 1 because we don't want to truncate the last offset itself.
 	return p.log.Truncate(lastOffset + 1)
 }
@@ -1680,6 +1718,9 @@ func (p *partition) truncateToHW() error {
 		return nil
 	}
 	p.srv.logger.Debugf("Truncating log for partition %s to HW %d", p, hw)
+	if verifhook.Enabled {
+		verifhook.Point("partition.truncate", p.srv.config.Clustering.ServerID, p.Stream, p.Id, "hw", uint64(0), hw+1) // nolint: errcheck
+	}
 	// Add 1 because we don't want to truncate the HW itself.
 	return p.log.Truncate(hw + 1)
 }
